@@ -32,6 +32,7 @@ func init() {
 			return 0, err
 		}
 		found := false
+		foundInt := false
 		ast.Inspect(fd, func(x ast.Node) bool {
 			is, ok := x.(*ast.IfStmt)
 			if !ok {
@@ -39,6 +40,11 @@ func init() {
 			}
 			be, ok := is.Cond.(*ast.BinaryExpr)
 			if !ok || be.Op != token.GEQ {
+				return true
+			}
+			// `int(nodeIdx) >= len(addrs)`: the comparison is made on ints, nothing is truncated
+			if exprString(c.fset, be.X) == "int(nodeIdx)" && exprString(c.fset, be.Y) == "len(addrs)" && strings.Contains(exprString(c.fset, is.Body), "respScanTerm") {
+				foundInt = true
 				return true
 			}
 			l, ok := be.X.(*ast.Ident)
@@ -50,11 +56,16 @@ func init() {
 			}
 			return true
 		})
-		if !found {
-			return 0, fmt.Errorf("handleScan: termination test `nodeIdx >= uint16(len(hosts))` → respScanTerm not found")
+		switch {
+		case foundInt:
+			w.WriteString("/-- `if int(nodeIdx) >= len(addrs) { req.SetResponse(respScanTerm) }` in handleScan -/\n")
+			w.WriteString("def pastLastNode (nodeIdx : BitVec 16) (nHosts : Nat) : Bool := decide (nHosts ≤ nodeIdx.toNat)\n\n")
+		case found:
+			w.WriteString("/-- `if nodeIdx >= uint16(len(hosts)) { req.SetResponse(respScanTerm) }` in handleScan -/\n")
+			w.WriteString("def pastLastNode (nodeIdx : BitVec 16) (nHosts : Nat) : Bool := BitVec.ule (BitVec.ofNat 16 nHosts) nodeIdx\n\n")
+		default:
+			return 0, fmt.Errorf("handleScan: termination test `int(nodeIdx) >= len(addrs)` → respScanTerm not found")
 		}
-		w.WriteString("/-- `if nodeIdx >= uint16(len(hosts)) { req.SetResponse(respScanTerm) }` in handleScan -/\n")
-		w.WriteString("def pastLastNode (nodeIdx : BitVec 16) (nHosts : Nat) : Bool := BitVec.ule (BitVec.ofNat 16 nHosts) nodeIdx\n\n")
 		n++
 		w.WriteString("end SamVerif.Gen.Scan\n")
 		return n, nil
